@@ -61,17 +61,18 @@ def gen_match (rng, respect=True):
   o = of()
   from pox.lib.addresses import IPAddr
   m = o.ofp_match()
+  it = {}
   def maybe (p=0.5): return rng.random() < p
-  if maybe(): m.in_port = rint(rng, 16)
-  if maybe(): m.dl_src = rmac(rng)
-  if maybe(): m.dl_dst = rmac(rng)
-  if maybe(): m.dl_vlan = rint(rng, 16)
-  if maybe(): m.dl_vlan_pcp = rng.randrange(8)
+  if maybe(): it['in_port'] = m.in_port = rint(rng, 16)
+  if maybe(): it['dl_src'] = m.dl_src = rmac(rng)
+  if maybe(): it['dl_dst'] = m.dl_dst = rmac(rng)
+  if maybe(): it['dl_vlan'] = m.dl_vlan = rint(rng, 16)
+  if maybe(): it['dl_vlan_pcp'] = m.dl_vlan_pcp = rng.randrange(8)
   dl_type = None
   if maybe(0.8):
     dl_type = rng.choice([0x0800, 0x0800, 0x0800, 0x0806, 0x86dd, 0x88cc,
                           0x05ff, rint(rng, 16)])
-    m.dl_type = dl_type
+    it['dl_type'] = m.dl_type = dl_type
   ip = dl_type == 0x0800
   arp = dl_type == 0x0806
   nw_proto = None
@@ -80,20 +81,45 @@ def gen_match (rng, respect=True):
     #  IGMP, GRE, SCTP, ESP, OSPF, ICMPv6, and the ends of the range)
     nw_proto = rng.choice([1, 6, 17, 6, 17, 2, 47, 132, 50, 89, 58, 0, 255,
                            rint(rng, 8)])
-    m.nw_proto = nw_proto
+    it['nw_proto'] = m.nw_proto = nw_proto
   if (ip or not respect) and maybe():
-    m.nw_tos = rng.randrange(64) << 2
+    it['nw_tos'] = m.nw_tos = rng.randrange(64) << 2
   if (ip or arp or not respect):
     if maybe(0.7):
-      m.nw_src = (IPAddr(rint(rng, 32)), rng.choice([32, 32, 24, 16, 8, 1, 31,
+      it['nw_src'] = m.nw_src = (IPAddr(rint(rng, 32)), rng.choice([32, 32, 24, 16, 8, 1, 31,
                                                      rng.randrange(1, 33)]))
     if maybe(0.7):
-      m.nw_dst = (IPAddr(rint(rng, 32)), rng.choice([32, 32, 24, 16, 8, 1, 31,
+      it['nw_dst'] = m.nw_dst = (IPAddr(rint(rng, 32)), rng.choice([32, 32, 24, 16, 8, 1, 31,
                                                      rng.randrange(1, 33)]))
   if ((ip and nw_proto in (1, 6, 17)) or not respect):
-    if maybe(): m.tp_src = rint(rng, 16) if nw_proto != 1 else rint(rng, 8)
-    if maybe(): m.tp_dst = rint(rng, 16) if nw_proto != 1 else rint(rng, 8)
+    if maybe(): it['tp_src'] = m.tp_src = rint(rng, 16) if nw_proto != 1 else rint(rng, 8)
+    if maybe(): it['tp_dst'] = m.tp_dst = rint(rng, 16) if nw_proto != 1 else rint(rng, 8)
+  if respect:
+    # what was asked for is kept beside the object: the oracle derives the
+    # wildcard word from this and the specification's bit positions, not
+    # from the library's own constants
+    for f in ("nw_src", "nw_dst"):
+      if f in it: it[f] = it[f][1]
+    m._pvm_intent = it
   return m
+
+
+SPEC_WILDCARD_BIT = dict(in_port=0, dl_vlan=1, dl_src=2, dl_dst=3, dl_type=4,
+                         nw_proto=5, tp_src=6, tp_dst=7, dl_vlan_pcp=20, nw_tos=21)
+
+
+def spec_wildcards (m, it):
+  w = 0
+  for f, bit in SPEC_WILDCARD_BIT.items():
+    if f not in it: w |= 1 << bit
+  for f, shift in (("nw_src", 8), ("nw_dst", 14)):
+    if f in it:
+      w |= (32 - it[f]) << shift
+    else:
+      # any count of 32 or more means "ignore"; the library's choice is kept
+      c = (m.wildcards >> shift) & 63
+      w |= (c if c >= 32 else 32) << shift
+  return w
 
 
 def raw_of (v, n):
@@ -110,6 +136,8 @@ def ip_of (v):
 
 def match_fields (m):
   d = {"wildcards": m.wildcards}
+  it = getattr(m, "_pvm_intent", None)
+  if it is not None: d["wildcards"] = spec_wildcards(m, it)
   for f in ("in_port", "dl_vlan", "dl_vlan_pcp", "dl_type", "nw_tos",
             "nw_proto", "tp_src", "tp_dst"):
     d[f] = getattr(m, f) or 0
@@ -127,7 +155,23 @@ ACTION_KINDS = ["output", "output_ctl", "enqueue", "strip_vlan", "vlan_vid",
                 "tp_src", "tp_dst", "vendor", "generic"]
 
 
+SPEC_ACTION_TYPE = dict(output=0, output_ctl=0, vlan_vid=1, vlan_pcp=2, strip_vlan=3,
+                        dl_src=4, dl_dst=5, nw_src=6, nw_dst=7, nw_tos=8, tp_src=9,
+                        tp_dst=10, enqueue=11, vendor=0xffff)
+
+
 def gen_action (rng, kind=None):
+  k = kind or rng.choice(ACTION_KINDS)
+  a = _gen_action(rng, k)
+  if k in SPEC_ACTION_TYPE:
+    # the type code the OpenFlow 1.0 specification gives this kind of action
+    # (the library's own numbering is what is being checked)
+    try: a._pvm_type = SPEC_ACTION_TYPE[k]
+    except Exception: pass
+  return a
+
+
+def _gen_action (rng, kind=None):
   o = of()
   from pox.lib.addresses import IPAddr
   k = kind or rng.choice(ACTION_KINDS)
@@ -166,7 +210,7 @@ def gen_actions (rng, maxn=6):
 
 def action_fields (a):
   o = of()
-  d = {"type": a.type}
+  d = {"type": getattr(a, "_pvm_type", a.type)}
   if isinstance(a, o.ofp_action_output):
     d.update(port=a.port, max_len=a.max_len)
   elif isinstance(a, o.ofp_action_enqueue):
